@@ -231,14 +231,16 @@ def match_names(cur_params, cur_locals, base):
 
 
 def _is_pure(e):
-  """Cheap, side-effect free expression that may be duplicated: names, attributes,
-  constants, arithmetic/comparisons on those and len() of those."""
+  """Cheap, side-effect free, immutable-valued expression that may be duplicated: names,
+  attributes, constants, arithmetic/comparisons on those and len()/int() of those."""
+  ok_types = (ast.Name, ast.Attribute, ast.Constant, ast.BinOp, ast.UnaryOp, ast.Compare, ast.BoolOp, ast.Load,
+              ast.operator, ast.unaryop, ast.cmpop, ast.boolop, ast.Call, ast.Tuple)
   for n in ast.walk(e):
+    if not isinstance(n, ok_types):
+      return False
     if isinstance(n, ast.Call):
       if not (isinstance(n.func, ast.Name) and n.func.id in ('len', 'int', 'float', 'str', 'bool') and len(n.args) == 1 and not n.keywords):
         return False
-    elif isinstance(n, (ast.Lambda, ast.ListComp, ast.SetComp, ast.DictComp, ast.GeneratorExp, ast.Await, ast.Yield, ast.YieldFrom, ast.NamedExpr, ast.Subscript)):
-      return False
   return True
 
 
